@@ -42,7 +42,7 @@ import (
 
 const muFile = "cty/msgpack/unknown.go"
 
-var muRoots = []string{"marshalUnknownValue"}
+var muRoots = []string{"marshalUnknownValue", "unmarshalUnknownValue"}
 
 type muShape int
 
@@ -191,11 +191,11 @@ var muMethods = map[muShape]map[string]muPrim{
 	},
 	muRDec: {
 		"DecodeMapLen": {lean: "MpGo.decodeMapLen", rets: []muShape{muInt, muErr}, state: true, partial: true},
-		"DecodeInt64":  {lean: "MpGo.decodeInt64", rets: []muShape{muI64, muErr}, state: true},
-		"DecodeInt":    {lean: "MpGo.decodeInt", rets: []muShape{muInt, muErr}, state: true},
-		"DecodeBool":   {lean: "MpGo.decodeBool", rets: []muShape{muBool, muErr}, state: true},
+		"DecodeInt64":  {lean: "MpGo.decodeInt64", rets: []muShape{muI64, muErr}, state: true, partial: true},
+		"DecodeInt":    {lean: "MpGo.decodeInt", rets: []muShape{muInt, muErr}, state: true, partial: true},
+		"DecodeBool":   {lean: "MpGo.decodeBool", rets: []muShape{muBool, muErr}, state: true, partial: true},
 		"DecodeString": {lean: "MpGo.decodeString", rets: []muShape{muStr, muErr}, state: true, partial: true},
-		"Skip":         {lean: "MpGo.decSkip", rets: []muShape{muErr}, state: true},
+		"Skip":         {lean: "MpGo.decSkip", rets: []muShape{muErr}, state: true, partial: true},
 	},
 	muBuilder: {
 		"Null":                       {lean: "MpGo.builderNull", rets: []muShape{muBuilder}, partial: true},
@@ -218,7 +218,7 @@ var muFuncs = map[string]muPrim{
 	"utf8.ValidString":           {lean: "MpGo.utf8ValidString", args: []muShape{muStr}, rets: []muShape{muBool}},
 }
 
-var muTyPrims = map[string]string{"Number": "isNumber", "String": "isString", "DynamicPseudoType": "isDyn"}
+var muTyPrims = map[string]string{"Number": "Ty.isNumber", "String": "Ty.isString", "DynamicPseudoType": "Ty.isDyn", "Bool": "RefineGo.isBool"}
 var muTyPrimLean = map[string]string{"Number": "Ty.number", "String": "Ty.string", "DynamicPseudoType": "Ty.dyn", "Bool": "Ty.bool"}
 var muValSings = map[string][2]string{ // Go name ↦ Lean value, Lean test
 	"NegativeInfinity": {"RefineGo.GoVal.negInf", "RefineGo.isNegInf"},
@@ -1077,7 +1077,7 @@ func (c *muCtx) equal(n ast.Node, a, b muV) string {
 		if !ok {
 			dieAt(n, "comparison with cty.%s", b.name)
 		}
-		return "(Ty." + t + " " + a.e + ")"
+		return "(" + t + " " + a.e + ")"
 	case a.sh == muValSing && b.sh == muVal:
 		return c.equal(n, b, a)
 	case a.sh == muVal && b.sh == muValSing:
@@ -1676,7 +1676,7 @@ func (t *muTr) translate(name string, fd *ast.FuncDecl) {
 		return ""
 	})
 	if handler != "" {
-		body = "(MpGo.recoverWith " + handler + "\n" + indent(body) + ")"
+		body = "(MpGo.recoverWith " + handler + " (\n" + indent(body) + "))"
 	}
 	p0, p1 := fset.Position(fd.Pos()), fset.Position(fd.End())
 	u := &muUnit{name: name, pos: fmt.Sprintf("%s:%d-%d", muFile, p0.Line, p1.Line)}
